@@ -182,6 +182,19 @@ def gen_terminals():
         rows.append('(%s, %s)' % (coq_str(phrase), tval(tr._proposition._original_rule.type)))
     s += 'Definition direction_of_phrase : list (string * tval) :=\n  [%s].\n' % ';\n   '.join(rows)
     s += 'Definition default_direction : tval := %s.\n\n' % tval(default)
+    # which synonym alternatives never reach a callback: Lark filters out terminals whose name starts with '_' (no keep_all_tokens),
+    # and rule callbacks that return Discard.  Record, per terminal, the rules that keep all tokens ('!' prefix) and mention it.
+    import re as _re
+    bang_rules = [ln.split(':')[0].strip().lstrip('!').split('.')[0] for ln in impl.grammar_text().splitlines() if ln.startswith('!')]
+    s += 'Definition keep_all_token_rules : list string := [%s].\n' % '; '.join(coq_str(r) for r in bang_rules)
+    # callbacks that read the children of those rules by position: tabulate which child indices quantified_choice_proposition uses
+    import inspect
+    src = inspect.getsource(CNLTransformer.quantified_choice_proposition)
+    used = sorted(set(int(i) for i in _re.findall(r'elem\[(\d+)\]', src)))
+    s += 'Definition quantified_choice_children_used : list nat := [%s].\n' % '; '.join(map(str, used))
+    for cb in ['cnl_goes_from', 'cnl_whenever_there_is', 'cnl_is_one_of']:
+        r = getattr(CNLTransformer(), cb)([])
+        s += 'Definition discards_%s : bool := %s.\n' % (cb, 'true' if r is lark.Discard else 'false')
     # header strings and other grammar facts used by C09/C11
     for t in ['_QUANTIFIER', '_CNL_HOLD', '_CNL_INDEFINITE_ARTICLE', '_CNL_GOES', '_CNL_RANGES', 'PARAMETER_PREPOSITION',
               'VERB_PREPOSITION', 'COMPLEX_CONCEPT_TYPE']:
